@@ -83,11 +83,11 @@ CHECKS['C12'] = dict(
          'a single SRV/A/AAAA/NSEC question -> now; otherwise -> aggregation queue. Routing is proved '
          '(QueryHandler.handle_assembled_query): mcast_now is sent in the same step, mcast_aggregate only enters out_queue, '
          'mcast_aggregate_last_second only enters out_delay_queue, both timed from the first packet; the two queues never share a group. '
-         'A pending wake-up no later than the oldest deadline is an invariant (armed).',
+         'A pending wake-up no later than the oldest deadline is an invariant (armed). Truncated queries (AsyncListener.handle_query_or_defer / _respond_query): a source has held packets exactly while one un-cancelled hold timer of the listener is pending for it (tc_ok); a byte-identical repeat of a held packet changes nothing (frame); a new truncated packet is appended and the hold restarts 400-500 ms from now with the old timer cancelled; the answer is built once, from every held packet in arrival order plus the current one, after the hold has been cleared (call-site obligations).',
     design_ref='DESIGN.md section 4 C12',
     note='timers and sends are ghost logs (loop_model) attached to the real call sites; construct_outgoing_multicast_answers '
          'is assumed to put exactly the given records in the packet; the event loop is assumed to fire a timer no earlier '
-         'than its due time; async_response assumed not to touch queues/timers/clock; TC deferral in _listener not under contract')
+         'than its due time; async_response assumed not to touch queues/timers/clock')
 CHECKS['C10'] = dict(
     text='Every method of the browser QueryScheduler is under contract (10 functions) and verified for all scheduler states, '
          'pointer records and clock values: structural invariant (one live entry per instance name ignoring case, the map holds '
